@@ -20,7 +20,7 @@ def classify_crash(cr):
 
 SPEC = {
     'id': 'C12',
-    'lean_modules': ['AITB.Props.C12Spec', 'AITB.Props.C12Interp'],
+    'lean_modules': ['AITB.Props.C12Spec', 'AITB.Props.C12Interp', 'AITB.Props.C12CheckSound'],
     'theorems': [
         # headline statements (library tolerances / exact reading)
         'AITB.Prune.extractDominated_spec', 'AITB.Prune.extractDominated_exact_spec',
@@ -44,6 +44,7 @@ SPEC = {
         'AITB.C12Check.farkasOK_sound', 'AITB.C12Check.convex_dominance_sound', 'AITB.C12Check.farkas_keep_sound',
         'AITB.C12Check.violationOK_sound', 'AITB.C12Check.neededOK_sound', 'AITB.C12Check.pairwiseOK_sound',
         'AITB.C12Check.weak_duality_sound', 'AITB.C12Check.interp_sound',
+        'AITB.C12Check.envelopeClause_ok_sound', 'AITB.C12Check.envelopeClause_bad_sound', 'AITB.C12Check.envelopeClause_consistent',
         # interpolation models
         'AITB.Interp.sawLoop_minCF_nonpos', 'AITB.Interp.sawtooth_le_corner_bound', 'AITB.Interp.sawLoop_spec',
         'AITB.Interp.basicV_le_corner', 'AITB.Interp.sawtooth_repaired_total', 'AITB.Interp.sawtooth_repaired_weights',
